@@ -351,7 +351,20 @@ func (g *Gen) drawCfg() {
 		}
 		cfg.Weights[k] = wgt * (0.5 + 1.5*r.Float())
 	}
+	if p.NativeUpdaters && !cfg.FaultFree && r.Chance(0.15) {
+		// native-heavy runs: activation and Go updaters early and often
+		cfg.Weights["native"] = 2
+	}
 	g.Cfg = cfg
+}
+
+// retains: the commands whose request and response structures the drivers keep
+func retains(op string) bool {
+	switch op {
+	case "Put", "Get", "Delete", "Update", "Query", "Scan", "Open", "Resume", "BatchWrite", "BatchGet":
+		return true
+	}
+	return false
 }
 
 func essential(k string) bool { return k == "put" || k == "get" }
@@ -1136,11 +1149,20 @@ func (g *Gen) try(m *Model, eng *Engine) *Cmd {
 			return nil
 		}
 		// recent structures more often than old ones
+		var cands []*Cmd
+		for _, c := range g.cmds {
+			if retains(c.Op) {
+				cands = append(cands, c)
+			}
+		}
+		if len(cands) == 0 {
+			return nil
+		}
 		var ref *Cmd
 		if r.Chance(0.5) {
-			ref = g.cmds[len(g.cmds)-1-r.Intn(min(3, len(g.cmds)))]
+			ref = cands[len(cands)-1-r.Intn(min(3, len(cands)))]
 		} else {
-			ref = pick(r, g.cmds)
+			ref = pick(r, cands)
 		}
 		cmd.Op, cmd.Actor, cmd.C, cmd.T = "Poke", "injector", ref.C, ""
 		cmd.Ref, cmd.Dir, cmd.Slot = ref.ID, pick(r, []string{"in", "out"}), r.Intn(64)
